@@ -5,21 +5,28 @@ cd /verif/harness || exit 2
 export CARGO_NET_OFFLINE=true
 # the build output location is fixed: an inherited CARGO_TARGET_DIR must not redirect it
 export CARGO_TARGET_DIR=/verif/.target
+# the release and the checked profile (release + debug assertions + overflow checks in every crate) build side by side;
+# every check except C19 runs in both (C19 compares the backends through its own tool)
+case "$1" in
+  C19|c19) checked=no ;;
+  *) checked=yes ;;
+esac
+if [ $checked = yes ]; then
+  cargo build --profile checked --offline >/verif/.target/build-checked.log 2>&1 &
+  cpid=$!
+fi
 if ! cargo build --release --offline >/verif/.target/build.log 2>&1; then
   # a tree that does not compile is a machinery failure, never a verdict
   tail -40 /verif/.target/build.log >&2
   echo "MACHINERY-ERROR build failed" >&2
+  [ $checked = yes ] && wait $cpid
   exit 2
 fi
-case "$1" in
-  C17|c17|replay)
-    # C17 also runs in the checked profile (release + debug assertions + overflow checks in every crate)
-    if ! cargo build --profile checked --offline >/verif/.target/build-checked.log 2>&1; then
-      tail -40 /verif/.target/build-checked.log >&2
-      echo "MACHINERY-ERROR build (checked profile) failed" >&2
-      exit 2
-    fi ;;
-esac
+if [ $checked = yes ] && ! wait $cpid; then
+  tail -40 /verif/.target/build-checked.log >&2
+  echo "MACHINERY-ERROR build (checked profile) failed" >&2
+  exit 2
+fi
 case "$1" in
   C19|c19|replay)
     # C19 compares the two arithmetic backends: build the transcript tool once per backend
